@@ -751,11 +751,29 @@ package ackhandler
 // GetAckFrame of the base tracker ranges over the history's iterator; its loop body is under contract below
 // (GetAckFrame$1: one ACK range per interval, bounds copied, earlier ranges kept), the iterator's visiting order is not.
 //@ func (h *receivedPacketTracker) GetAckFrame
-//@   trusted range-over-func loop: the body is verified as GetAckFrame$1, the composition with the iterator is assumed; only the flag protocol is stated here
+//@   props C07
+//@   requires h.packetHistory.rInv()
 //@   ensures [nil-iff-nothing-new] iff(result == nil, !old(h.hasNewAck))
 //@   ensures [consumed] !h.hasNewAck
 //@   ensures [same-struct] implies(result != nil, result == h.lastAck)
+//@   ensures [acknowledges-only-received-packets] implies(result != nil, forall(j, 0, len(result.AckRanges), exists(k, 0, len(h.packetHistory.ranges), h.packetHistory.ranges[k].Start == result.AckRanges[j].Smallest && h.packetHistory.ranges[k].End == result.AckRanges[j].Largest)))
+//@   ensures [ecn-counts-copied] implies(result != nil, result.ECT0 == h.ect0 && result.ECT1 == h.ect1 && result.ECNCE == h.ecnce)
+//@   ensures [history-untouched] len(h.packetHistory.ranges) == old(len(h.packetHistory.ranges)) && h.packetHistory.deletedBelow == old(h.packetHistory.deletedBelow)
 //@   modifies h.hasNewAck, h.lastAck, heap(wire.AckFrame.AckRanges), heap(wire.AckFrame.DelayTime), heap(wire.AckFrame.ECT0), heap(wire.AckFrame.ECT1), heap(wire.AckFrame.ECNCE), elems(wire.AckRange)
+//@ loop (h *receivedPacketTracker) GetAckFrame #rf1
+//@   invariant ack != nil && forall(j, 0, len(ack.AckRanges), exists(k, 0, len(h.packetHistory.ranges), h.packetHistory.ranges[k].Start == ack.AckRanges[j].Smallest && h.packetHistory.ranges[k].End == ack.AckRanges[j].Largest))
+//@   invariant ack.ECT0 == h.ect0 && ack.ECT1 == h.ect1 && ack.ECNCE == h.ecnce
+
+//@ func (h *receivedPacketHistory) Backward
+//@   props C07
+//@   elem [is-a-recorded-interval] exists(k, 0, len(h.ranges), h.ranges[k].Start == arg0.Start && h.ranges[k].End == arg0.End)
+//@   modifies nothing
+//@ func (h *receivedPacketHistory) Backward$1
+//@   props C07
+//@   modifies nothing
+//@ loop (h *receivedPacketHistory) Backward$1 #0
+//@   invariant -1 <= i && i < len(h.ranges)
+//@   modifies nothing
 
 // The application-data tracker decides WHEN an ACK is sent: only if one is queued or the alarm expired (when asked so),
 // with the delay measured from the largest observed packet, and sending it clears the queue, the alarm and the counter.
@@ -957,3 +975,49 @@ package ackhandler
 //@   invariant 0 <= h.bytesInFlight && h.bytesInFlight <= old(h.bytesInFlight)
 //@ loop (h *sentPacketHandler) DropPackets #rf2
 //@   invariant 0 <= h.bytesInFlight && h.bytesInFlight <= old(h.bytesInFlight) && samebacking(h.appDataPackets.history.packets, old(h.appDataPackets.history.packets))
+
+// MigratedPath (whole function, by composition with $1/$2): every packet of the old path is declared lost and taken out of
+// bytes_in_flight, the congestion controller is re-created in the Reno mode (the only mode C20's window claims cover), and
+// the loss-detection timer is recomputed afterwards.
+// NOTE (observation, DESIGN 6.4): the second loop removes path probes while ranging over them; with three probes
+// outstanding the middle one survives (findings/observation_MigratedPath_...). The composition rule cannot decide "no probe
+// remains" (it treats the elements an iterator yields as independent), so no such clause is claimed here.
+//@ func (h *sentPacketHandler) MigratedPath
+//@   props C06 C20
+//@   requires h.sInv() && 0 <= now && now <= 4611686018427387903 && 1200 <= initialMaxDatagramSize && initialMaxDatagramSize <= 1452
+//@   requires forall(k, 0, len(h.appDataPackets.history.pathProbePackets), h.appDataPackets.history.pathProbePackets[k].packet != nil)
+//@   ensures [bytes-in-flight-never-grows] 0 <= h.bytesInFlight && h.bytesInFlight <= old(h.bytesInFlight)
+//@   ensures [new-controller-uses-reno] called("NewCubicSender") == 1 && callarg("NewCubicSender", 0, 4) && h.congestion != nil
+//@   ensures [timer-recomputed] called("(*sentPacketHandler).setLossDetectionTimer") == 1
+//@   unclaimed pre:(*sentPacketHandler).MigratedPath$1@2.0 needs the sum-of-lengths invariant over the history (see DropPackets)
+//@   unclaimed pre:(*sentPacketHandler).MigratedPath$1@2.1 the history invariant is assumed at each iteration (the loop body is verified against it)
+//@   unclaimed pre:(*sentPacketHandler).MigratedPath$1@2.2 same
+//@   modifies everything
+//@ loop (h *sentPacketHandler) MigratedPath #rf1
+//@   invariant h.sInv() && h.bytesInFlight <= old(h.bytesInFlight) && h.appDataPackets == old(h.appDataPackets)
+//@ loop (h *sentPacketHandler) MigratedPath #rf2
+//@   invariant h.sInv() && h.bytesInFlight <= old(h.bytesInFlight) && h.appDataPackets == old(h.appDataPackets)
+
+// The other place a congestion controller is created: always the Reno mode (C20's window claims are scoped to it).
+//@ func newPacketNumberSpace
+//@   trusted constructor: a fresh packet number space with an empty history and a new packet number generator
+//@   ensures result != nil && result.largestAcked == -1
+//@   fresh
+//@   modifies nothing
+//@ func NewSentPacketHandler
+//@   props C20 C14
+//@   requires 1200 <= initialMaxDatagramSize && initialMaxDatagramSize <= 1452 && rttStats != nil && connStats != nil
+//@   let r = dyn(result, *sentPacketHandler)
+//@   ensures [controller-uses-reno] called("NewCubicSender") == 1 && callarg("NewCubicSender", 0, 4)
+//@   ensures [address-validation-state] typeis(result, *sentPacketHandler) && r.peerAddressValidated == (pers == protocol.PerspectiveClient || clientAddressValidated) && r.bytesSent == 0 && r.bytesReceived == 0 && r.bytesInFlight == 0
+//@   modifies nothing
+//@ func newLostPacketTracker
+//@   trusted constructor: an empty tracker of bounded length
+//@   ensures result != nil
+//@   fresh
+//@   modifies nothing
+//@ func newECNTracker
+//@   trusted constructor (ECN validation state; not part of any claim)
+//@   ensures result != nil
+//@   fresh
+//@   modifies nothing
